@@ -132,6 +132,10 @@ def _div4_builds_tuples(project):
     f, tile, kids, r = toastgeom.div4_facts(project)
     if kids is None:
         return False
+    # ... and nobody but _create_level1_tiles / _div4 makes tiles (e.g. re-wrapping the corners of a finished tile in an array)
+    others = [x for x in toastgeom.tile_construction_sites(project) if x[0].qual not in ("toasty.toast._create_level1_tiles", "toasty.toast._div4")]
+    if others:
+        return False
     return all(len(k) == 3 and k[1][0] == "tuple" and len(k[1][1]) == 4 for k in kids)
 
 
